@@ -122,15 +122,16 @@ def roundHA (r : Rat) : Int := if 0 ≤ r then (r + 1 / 2).floor else -((-r + 1 
 def bucketLt (a b : Node) : Bool :=
   roundHA a.p.x < roundHA b.p.x || (roundHA a.p.x == roundHA b.p.x && roundHA a.p.y < roundHA b.p.y)
 
-/-- `NearbyObjectFinder::findObject`: the first stored object, in bucket scan order (rounded x, then
-rounded y, then insertion order), inside the OPEN box of half-width `th` around `q`. `store` is in
-insertion order. (A stored point inside the open box always lies in the scanned bucket range because
-rounding is monotone.) -/
+/-- keep the earlier object in bucket scan order (strict comparison: the first inserted wins a tie) -/
 def pickFirst (best : Option Node) (s : Node) : Option Node :=
   match best with
   | none => some s
   | some b => if bucketLt s b then some s else some b
 
+/-- `NearbyObjectFinder::findObject`: the first stored object, in bucket scan order (rounded x, then
+rounded y, then insertion order), inside the OPEN box of half-width `th` around `q`. `store` is in
+insertion order. (A stored point inside the open box always lies in the scanned bucket range because
+rounding is monotone.) -/
 def findNear (th : Rat) (store : List Node) (q : Pt) : Option Node :=
   (store.filter (fun s => absR (q.x - s.p.x) < th && absR (q.y - s.p.y) < th)).foldl pickFirst none
 
